@@ -390,8 +390,8 @@ Fixpoint optional_defaults (own : frame) (sc : scope) (t : val) (es : list (spec
   | _ :: r => optional_defaults own sc t r res end.
 End Loops.
 
-(* Check(validate=[...]): Some true = a validator returned False and a default is set (the default is returned
-   unevaluated); Some false = an error was recorded; None = all passed *)
+(* Check(validate=[...]): Some true = a validator returned False or raised and a default is set (the default is the
+   result, evaluated as an argument); Some false = an error was recorded; None = all passed *)
 Fixpoint validators_loop (has_default : bool) (fs : list fn) (tv : val) : M (option bool) :=
   match fs with
   | [] => ret None
@@ -401,7 +401,9 @@ Fixpoint validators_loop (has_default : bool) (fs : list fn) (tv : val) : M (opt
           if has_default then (Ok (Some true), st') else (let! x := validators_loop has_default r tv in ret (Some false)) st'
       | (Ok _, st') => validators_loop has_default r tv st'
       | (Raise _, st') =>
-          (let! x := validators_loop has_default r tv in match x with Some true => ret (Some true) | _ => ret (Some false) end) st'
+          (* a validator that raises fails the check like one that answers False: the default, when there is one *)
+          if has_default then (Ok (Some true), st')
+          else (let! x := validators_loop has_default r tv in ret (Some false)) st'
       | (Unmodelled u, st') => (Unmodelled u, st')
       | (OutOfFuel, st') => (OutOfFuel, st') end
   end.
